@@ -1,0 +1,147 @@
+//! MtuDiscovery (mtud.rs): search state machine and black hole detector
+//!
+//! Requests (first token `mtud` already removed); sizes are u16, packet numbers u64, times are
+//! nanosecond offsets (< 2^60) from a base instant chosen when the component is created:
+//!   new <initial> <min_mtu> <peer|-> <interval> <upper_bound> <minimum_change> <cooldown>
+//!   disabled <plpmtu> <min_mtu>
+//!   reset <current_mtu> <min_mtu>
+//!   poll <now> <next_pn>            -> none | probe <size>
+//!   peer <max_udp_payload_size>     -> ok
+//!   acked <space 0|1|2> <pn> <len>  -> true | false
+//!   ploss                           -> ok
+//!   nploss <pn> <len>               -> ok
+//!   bhd <now>                       -> true | false
+//!   inflight                        -> none | some <pn>
+//! Response: `<result> | <verif_state>`; `panic` is produced by the harness.
+use super::{num, Comp, BAD};
+use crate::connection::mtud::MtuDiscovery;
+use crate::packet::SpaceId;
+use crate::{Duration, Instant, MtuDiscoveryConfig};
+
+const TIME_BOUND: u64 = 1 << 60;
+
+pub(super) struct MtudC {
+    m: MtuDiscovery,
+    base: Instant,
+}
+
+impl MtudC {
+    pub(super) fn new() -> Self {
+        Self {
+            m: MtuDiscovery::new(1_200, 1_200, None, MtuDiscoveryConfig::default()),
+            base: Instant::now(),
+        }
+    }
+
+    fn st(&self, r: &str) -> String {
+        format!("{r} | {}", self.m.verif_state(self.base))
+    }
+}
+
+fn u16_(s: &str) -> Option<u16> {
+    num(s).and_then(|x| u16::try_from(x).ok())
+}
+
+fn time(s: &str) -> Option<u64> {
+    num(s).filter(|x| *x < TIME_BOUND)
+}
+
+impl Comp for MtudC {
+    fn exec(&mut self, w: &[&str]) -> String {
+        match w {
+            ["new", i, m, p, iv, ub, mc, cd] => {
+                let (Some(i), Some(m), Some(iv), Some(ub), Some(mc), Some(cd)) =
+                    (u16_(i), u16_(m), time(iv), u16_(ub), u16_(mc), time(cd))
+                else {
+                    return BAD.into();
+                };
+                let p = match *p {
+                    "-" => None,
+                    p => match u16_(p) {
+                        Some(p) => Some(p),
+                        None => return BAD.into(),
+                    },
+                };
+                let mut config = MtuDiscoveryConfig::default();
+                config
+                    .interval(Duration::from_nanos(iv))
+                    .upper_bound(ub)
+                    .minimum_change(mc)
+                    .black_hole_cooldown(Duration::from_nanos(cd));
+                self.m = MtuDiscovery::new(i, m, p, config);
+                self.st("ok")
+            }
+            ["disabled", i, m] => {
+                let (Some(i), Some(m)) = (u16_(i), u16_(m)) else {
+                    return BAD.into();
+                };
+                self.m = MtuDiscovery::disabled(i, m);
+                self.st("ok")
+            }
+            ["reset", c, m] => {
+                let (Some(c), Some(m)) = (u16_(c), u16_(m)) else {
+                    return BAD.into();
+                };
+                self.m.reset(c, m);
+                self.st("ok")
+            }
+            ["poll", now, pn] => {
+                let (Some(now), Some(pn)) = (time(now), num(pn)) else {
+                    return BAD.into();
+                };
+                let r = self
+                    .m
+                    .poll_transmit(self.base + Duration::from_nanos(now), pn);
+                match r {
+                    None => self.st("none"),
+                    Some(x) => self.st(&format!("probe {x}")),
+                }
+            }
+            ["peer", v] => {
+                let Some(v) = u16_(v) else {
+                    return BAD.into();
+                };
+                self.m.on_peer_max_udp_payload_size_received(v);
+                self.st("ok")
+            }
+            ["acked", sp, pn, len] => {
+                let (Some(pn), Some(len)) = (num(pn), u16_(len)) else {
+                    return BAD.into();
+                };
+                let sp = match *sp {
+                    "0" => SpaceId::Initial,
+                    "1" => SpaceId::Handshake,
+                    "2" => SpaceId::Data,
+                    _ => return BAD.into(),
+                };
+                let r = self.m.on_acked(sp, pn, len);
+                self.st(&r.to_string())
+            }
+            ["ploss"] => {
+                self.m.on_probe_lost();
+                self.st("ok")
+            }
+            ["nploss", pn, len] => {
+                let (Some(pn), Some(len)) = (num(pn), u16_(len)) else {
+                    return BAD.into();
+                };
+                self.m.on_non_probe_lost(pn, len);
+                self.st("ok")
+            }
+            ["bhd", now] => {
+                let Some(now) = time(now) else {
+                    return BAD.into();
+                };
+                let r = self
+                    .m
+                    .black_hole_detected(self.base + Duration::from_nanos(now));
+                self.st(&r.to_string())
+            }
+            ["inflight"] => match self.m.in_flight_mtu_probe() {
+                None => self.st("none"),
+                Some(p) => self.st(&format!("some {p}")),
+            },
+            _ => BAD.into(),
+        }
+    }
+}
